@@ -511,8 +511,15 @@ func CheckLedgers(P *core.Program, R *core.Report, spec *LedgerSpec) {
 				okCopy := ff.AllOrigins(st.Val, nil, func(o core.Origin) bool {
 					return o.Kind == "call" && strings.HasSuffix(o.Path, "."+d.Field.Field)
 				})
-				R.Add(spec.Rule+"-assign", key, d.Ledger+" assigned", P.Pos(P.InstrPos(d.Instr)), okCopy,
-					"frozen as copy: the assigned value must be the same field of a freshly loaded record")
+				// the record being stored is a foreign one (the message's): the live value must
+				// be carried over on EVERY path that goes on to succeed, not under a condition
+				_, escapes := ff.SuccessExitReachableWithout(nil, func(in ssa.Instruction) bool { return in == d.Instr })
+				why := ""
+				if escapes {
+					why = " — a success path skips the carry-over (the stale value carried in the foreign record is stored)"
+				}
+				R.Add(spec.Rule+"-assign", key, d.Ledger+" assigned", P.Pos(P.InstrPos(d.Instr)), okCopy && !escapes,
+					"frozen as copy: the assigned value must be the same field of a freshly loaded record, on every success path"+why)
 			}
 		}
 		// control classes
